@@ -555,6 +555,15 @@ def require_all(cx, site, key, text, clauses, kill=True, detail=None):
     return not failed
 
 
+def subst_phis(e, env, depth=0):
+    """replace every phi over a local that `env` (a path environment) resolves by the resolved value"""
+    if not isinstance(e, tuple) or depth > 40:
+        return e
+    if e and e[0] == "phi" and e[1] in env:
+        return env[e[1]]
+    return tuple(subst_phis(x, env, depth + 1) if isinstance(x, tuple) else x for x in e)
+
+
 def path_variants(cx, site, exprs, limit=4000):
     """The values a tuple of expressions takes along the acyclic paths to `site`: every `phi` over a local with several
     definitions is replaced by the definition last passed on the path. Correlated choices made in separate places
@@ -566,15 +575,9 @@ def path_variants(cx, site, exprs, limit=4000):
     except OverflowError:
         return None
 
-    def subst(e, env, depth=0):
-        if not isinstance(e, tuple) or depth > 40:
-            return e
-        if e and e[0] == "phi" and e[1] in env:
-            return env[e[1]]
-        return tuple(subst(x, env, depth + 1) if isinstance(x, tuple) else x for x in e)
     out = []
     for _, env in envs:
-        v = tuple(subst(e, env) for e in exprs)
+        v = tuple(subst_phis(e, env) for e in exprs)
         if v not in out:
             out.append(v)
     return out
